@@ -1594,9 +1594,16 @@ class H2Connection:
         """
         Receive a headers frame on the connection.
         """
-        # If necessary, check we can open the stream. Also validate that the
-        # stream ID is valid.
-        if frame.stream_id not in self.streams:
+        # If necessary, check we can open the stream. This only concerns
+        # HEADERS that would open a new stream: frames for a stream that we
+        # have already closed and forgotten (they may have been in flight when
+        # we reset it) are dealt with below, according to how it was closed.
+        opens_stream = (
+            frame.stream_id not in self.streams and
+            frame.stream_id > self.highest_inbound_stream_id and
+            not self._stream_id_is_outbound(frame.stream_id)
+        )
+        if opens_stream:
             max_open_streams = self.local_settings.max_concurrent_streams
             if (self.open_inbound_streams + 1) > max_open_streams:
                 raise TooManyStreamsError(
